@@ -10,7 +10,7 @@ import types
 from collections import Counter
 from pathlib import Path
 
-from . import common, k10
+from . import c07_env, common, k10
 from .common import glist
 from .k10 import gname, gnames, gpairs
 
@@ -187,12 +187,12 @@ NOT_SURFACE = {"loop_i", "os"}   # bound by import / for statements
 # ---------------------------------------------------------------------------------------------
 
 
-def write_cases(wd, name, ctype, okfn, bodies, per=400):
+def write_cases(wd, name, ctype, okfn, bodies, per=400, header=None):
     files, shards = [], []
     for k in range(0, len(bodies), per):
         shard = bodies[k:k + per]
         p = wd / f"{name}_{k // per}.v"
-        p.write_text(k10.HEADER + f"Definition cases : list ({ctype}) := [\n " +
+        p.write_text((header or k10.HEADER) + f"Definition cases : list ({ctype}) := [\n " +
                      ";\n ".join(b for b, _ in shard) + f"\n].\nEval vm_compute in (bad_idx {okfn} cases).\n")
         files.append(p)
         shards.append([info for _, info in shard])
@@ -304,6 +304,10 @@ def check(run: common.Run):
     f, s = write_cases(wd, "rules", "rule_case", "rule_case_ok", rcases, per=300)
     files += f; shards += s
 
+    # ---- (c') round 5: re-binding family -- final environment (SurfaceEnvModel) and the execution oracle
+    env = env_family_step(mods, findings, wd, quick, hist, distinct)
+    files += env["files"]; shards += env["shards"]
+
     results = common.run_case_files(files)
     disagreements = list(capture_errors[:3]) + list(rule_errors[:3])
     for p, shard in zip(files, shards):
@@ -320,8 +324,8 @@ def check(run: common.Run):
     sweep += UNDERSCORE_FAMILY
     sweep += hunt_family()
     corpus = load_corpus()
-    failures, suppressed = [], Counter()
-    n_sweep = 0
+    failures, suppressed = list(env["failures"]), Counter(env["suppressed"])
+    n_sweep = env["evaluations"]
     for src in dict.fromkeys(sweep):
         if not _parses(src):
             continue
@@ -338,6 +342,9 @@ def check(run: common.Run):
             continue
         n_sweep += 1
         fail = oracle_case(mods, c["source"], safe=True)
+        if not fail and c.get("oracle") == "exec":          # round 5 witnesses: execution oracle, pipeline + rules
+            Pc = capture_preserve(mods, c["source"]) or set(k10.keys_of(c["source"]))
+            fail = exec_fail(mods, [], "corpus:" + c["id"], c["source"], Pc, ENV_RULES)
         if fail:
             fail["corpus"] = c["id"]
             failures.append(fail)
@@ -346,14 +353,17 @@ def check(run: common.Run):
     searched = 0
     if (disagreements or (ps.get("props") and not ps["props"]["ok"])) and not failures:
         cands = [d[3] for d in disagreements if d and d[0] == "rule"] + \
-                [d[1] for d in disagreements if d and d[0] in ("preserve", "surface")]
+                [d[1] for d in disagreements if d and d[0] in ("preserve", "surface", "env")] + \
+                [d[3] for d in disagreements if d and d[0] == "env-rule"]
         cands += [k10.random_module(rnd, pool) for _ in range(200 if quick else 2000)]
         for src in dict.fromkeys(cands):
             if not _parses(src):
                 continue
             searched += 1
-            fail = oracle_case(mods, src, safe=True)
-            if fail and not triage(mods, findings, fail, safe=True):
+            fail = oracle_case(mods, src, safe=True) or exec_fail(mods, findings, "search", src)
+            if fail and fail.get("oracle") == "exec":
+                failures.append(fail)
+            elif fail and not triage(mods, findings, fail, safe=True):
                 failures.append(fail)
                 if len(failures) >= 3:
                     break
@@ -376,9 +386,10 @@ def check(run: common.Run):
 
     # ---- verdicts
     for fail in failures[:5]:
-        run.violation({"kind": "property-oracle", **fail,
+        run.violation({"kind": "property-oracle",
                        "explanation": "a name of the input's public surface is no longer defined after "
-                                      "format_code(safe=True) and no listed finding matches (site + predicate)"}, True)
+                                      "format_code(safe=True) and no listed finding matches (site + predicate)",
+                       **fail}, True)
     if not failures:
         for d in disagreements[:5]:
             run.violation({"kind": "correspondence", "kernel": "K10 SurfaceModel", "detail": d,
@@ -402,7 +413,11 @@ def check(run: common.Run):
               "each real rule x each module x preserve subsets (all subsets when <= 4 keys): protected "
               "definitions must survive; exact families additionally require every eligible unprotected one to "
               "go. Non-trivial = the rule changed the source / preserve set > 2 names / multi-name target; "
-              "distinct by (rule, preserve, source)."),
+              "distinct by (rule, preserve, source). Round 5: re-binding family (14 statement kinds binding / "
+              "re-declaring / unbinding one name: pairs, triples through del / bare annotation / except-as, module "
+              "and class scope): SurfaceEnvModel.run = names exec() leaves bound (None = NameError); outputs of "
+              "format_code(safe=True) and of 5 rules under the safe preserve set as env_rule_case (output imports, "
+              "preserved names bound at the end stay bound) and under the execution oracle (same kind of object)."),
         samples=[tcases[7][1][1], modules[3], modules[len(pool) + 5], modules[-1],
                  {"rule": rcases[11][1][1], "preserve": rcases[11][1][2], "source": rcases[11][1][3]}],
         exhaustive=False, exhaustive_part=n_exh, random_part=nrand, histogram=dict(hist),
@@ -417,12 +432,114 @@ def check(run: common.Run):
         trusted_base=common.TRUSTED_BASE_COMMON + [
             "harness/k10.py: ast -> SurfaceModel term converter and the AST surface oracle",
             "bound/top_surface/member_surface are definitions (validated against symtable and exec() on every run)",
+            "SurfaceEnvModel.run (final environment of binding events) is a definition, validated against exec() "
+            "on the re-binding family; harness/c07_env.py: statement -> event converter and the execution oracle",
             "ASCII identifiers only"],
     )
     run.assumptions += [
         "the theorems quantify over every oracle (usage analysis, naming, replacement) but only over the seven "
         "modelled rules; other pipeline stages are observed by the deterministic safe-mode sweep only",
-        "surface = syntactic reading of the property (direct children of the module / of a top-level class)"]
+        "surface = syntactic reading of the property (direct children of the module / of a top-level class); "
+        "round 5: a public name counts while the original still has it bound at the END of its body, and the kind of "
+        "object is compared where the last statement binding it is a def / class / assignment",
+        "T07.6-T07.9 speak about straight-line binding events; which statements a rule removes is an oracle (keep)"]
+
+
+ENV_RULES = ["RUndefine", "RPointless", "RDeleteUnused", "RAlign", "RDuplicate"]
+EXEC_EXPLANATION = ("execution oracle: the original imports cleanly, but after the safe-mode run the module no "
+                    "longer imports, or a public name the original has at the end of its body (last reaching "
+                    "binding) is undefined / an object of another kind; no listed finding matches")
+
+
+RULE_SITES = {"RUndefine": "fixes.undefine_unused_variables", "RPointless": "fixes.delete_pointless_statements",
+              "RDeleteUnused": "fixes.delete_unused_functions_and_classes", "RDuplicate": "fixes.remove_duplicate_functions",
+              "RAlign": "fixes.align_variable_names_with_convention"}
+
+
+def exec_fail(mods, findings, tag, src, P=None, rules=(), outs=None):
+    """execution oracle on format_code(safe=True) and on single rules under the safe preserve set P;
+    None or the first failure (site attached; `suppressed_by` set when a listed finding explains it).
+    `outs` = already computed [(how, output)] in the same order."""
+    if outs is None:
+        outs = []
+        for how in ["format_code"] + list(rules):
+            try:
+                outs.append((how, k10.format_code(mods, src, safe=True) if how == "format_code"
+                             else k10.run_rule(mods, how, src, P)))
+            except Exception:  # noqa
+                pass
+    for how, out in outs:
+        label = "format_code(safe=True)" if how == "format_code" else how
+        fail = c07_env.exec_oracle(mods, tag, src, lambda s, out=out: out, label)
+        if not fail:
+            continue
+        if how == "format_code":
+            fail["site"] = c07_env.bisect_exec(mods, src, safe=True)
+            fail["options"] = {"safe": True}
+        else:
+            fail["site"] = RULE_SITES.get(how, how)
+            fail["options"] = {"rule": how, "preserve": sorted(P)}
+        fail["explanation"] = EXEC_EXPLANATION
+        fnd = match_finding(findings, fail["site"], fail)
+        if fnd:
+            fail["suppressed_by"] = fnd.id
+        return fail
+    return None
+
+
+def env_family_step(mods, findings, wd, quick, hist, distinct):
+    """round 5: the re-binding family.  (1) reference semantics [run] vs exec(); (2) every rule output and the
+    pipeline output as an env_rule_case (preserved names bound at the end of the input are bound at the end of
+    the output, and the output imports); (3) the execution oracle itself (failing inputs)."""
+    fam = c07_env.WITNESSES + c07_env.rebind_family(quick)
+    ecases, rcases, failures, suppressed = {}, {}, [], Counter()
+    n_eval = 0
+    for tag, src in fam:
+        in_class = "Holder" if tag.startswith("class-") else None
+        ec = c07_env.env_case(src, in_class)
+        if ec:
+            ecases.setdefault(ec[0], ec)
+            hist["env:" + ("nameerror" if ec[1][3] is None else "imports")] += 1
+        else:
+            hist["env:unmodelled-or-other-error"] += 1
+        if c07_env.exec_env(src)[0] != "ok":
+            continue                                     # the original must import cleanly for the case to count
+        P = capture_preserve(mods, src)
+        if P is None:
+            P = set(k10.keys_of(src))
+        outs = []
+        try:
+            outs.append(("format_code", k10.format_code(mods, src, safe=True)))
+        except Exception:  # noqa
+            hist["env:format_code-raised"] += 1
+        for rule in ENV_RULES:
+            try:
+                outs.append((rule, k10.run_rule(mods, rule, src, P)))
+            except Exception as e:  # noqa
+                hist[f"env:{rule}:raised"] += 1
+        for how, out in outs:
+            n_eval += 1
+            if out == src or not _parses(out):
+                continue
+            hist[f"env:{how}:changed"] += 1
+            distinct.add(f"env:{how}:{src}")
+            rc = c07_env.env_rule_case(P, src, out, how, in_class)
+            if rc:
+                rcases.setdefault(rc[0], rc)
+        fail = exec_fail(mods, findings, tag, src, P, ENV_RULES, outs)
+        if fail:
+            if fail.get("suppressed_by"):
+                suppressed[fail["suppressed_by"]] += 1
+            else:
+                failures.append(fail)
+    f1, s1 = write_cases(wd, "env", "body * option (list name)", "env_case_ok", list(ecases.values()),
+                         header=c07_env.HEADER)
+    f2, s2 = write_cases(wd, "envrule", "list name * body * body", "env_rule_case_ok", list(rcases.values()),
+                         header=c07_env.HEADER)
+    hist["env:cases"] = len(ecases)
+    hist["env:rule-cases"] = len(rcases)
+    return {"files": f1 + f2, "shards": s1 + s2, "failures": failures, "suppressed": suppressed,
+            "evaluations": n_eval + len(ecases) + len(rcases)}
 
 
 def _redefines_class(src: str) -> bool:
@@ -560,7 +677,14 @@ def replay(path: str) -> int:
     mods = common.import_impl()
     print(json.dumps({k: data[k] for k in data if k in ("kind", "explanation", "site", "lost_top", "lost_members",
                                                         "detail")}, indent=1, default=str))
-    if data.get("kind") == "property-oracle":
+    if data.get("kind") == "property-oracle" and data.get("oracle") == "exec":
+        print("source:\n" + data["source"] + "recorded output:\n" + data["output"])
+        P = data.get("options", {}).get("preserve")
+        rule = data.get("options", {}).get("rule")
+        now = exec_fail(mods, [], data.get("family", "replay"), data["source"], P, [rule] if rule else ())
+        print("now:", json.dumps({k: now[k] for k in ("how", "output", "import_fails", "lost_top", "lost_members",
+                                                      "changed_kind", "site")}, indent=1) if now else "surface kept")
+    elif data.get("kind") == "property-oracle":
         now = oracle_case(mods, data["source"], safe=True)
         print("source:\n" + data["source"])
         print("now:", json.dumps(now, indent=1) if now else "surface kept")
